@@ -100,6 +100,11 @@ fn positive_generic<F: Fl>(c: &Case, obs: &mut Obs) -> PResult {
     let want_gsem = (a_log.sample_mean().exp() * a_log.sample_sem()).to64();
     ensure!(ulps::<F>(gsem, want_gsem) <= 4, "C05/geometric/sample_sem", "Geometric::sample_sem = {gsem:e}, documented transform G * se(ln x) = {want_gsem:e}");
 
+    if c.sample.shape.starts_with("geometric-only") {
+        // magnitudes at which the reciprocals' squares leave the float range: the harmonic half is not exercised here
+        obs.class(&format!("geometric_extreme/{}", F::NAME));
+        return Ok(());
+    }
     // ---- harmonic
     let want_rec = match call(|| a_rec.ci_mean(c.conf.flipped().get())) {
         Out::Ok(i) => i,
@@ -363,6 +368,28 @@ pub fn run(run: &mut Run) {
             run.require_class(c);
         }
     }
+    // geometric mean of data whose magnitude is beyond the square root of the float range (G^2 is not representable,
+    // G, ln x and the standard error are ordinary numbers)
+    {
+        let s = (any::<bool>(), prop::collection::vec(0u32..(1 << 20), 2..=24), 0u32..400, any::<bool>(), gen::conf(), 0u8..3).prop_map(|(f32_, raw, e, down, conf, style)| {
+            let base = if f32_ { 66.0 + (e % 50) as f64 } else { 515.0 + e as f64 };
+            let data: Vec<f64> = raw
+                .iter()
+                .map(|r| {
+                    let v = (2f64).powf((if down { -base } else { base }) + *r as f64 / (1 << 20) as f64 * 3.0);
+                    if f32_ {
+                        (v as f32) as f64
+                    } else {
+                        v
+                    }
+                })
+                .collect();
+            Case { sample: Sample { f32: f32_, shape: "geometric-only/extreme".into(), data: crate::fl::xs(&data) }, conf, style }
+        });
+        run.prop("geometric_extreme", run.tier.pick(6_000, 300_000), s, positive_case);
+        run.require_class("geometric_extreme/f32");
+        run.require_class("geometric_extreme/f64");
+    }
     // rejections: every position of short valid data, sampled positions of longer data
     let base: Vec<f64> = vec![0.5, 3.0, 0.125, 7.25, 1.0, 1e-3, 2e3, 0.75, 9.5, 4.0];
     for f32_ in [false, true] {
@@ -411,7 +438,7 @@ pub fn run(run: &mut Run) {
 pub fn replay(sub: &str, v: &Value, obs: &mut Obs) -> Option<PResult> {
     Some(match sub {
         "history" => crate::props::history::case(&de(v), obs),
-        "positive" => positive_case(&de(v), obs),
+        "positive" | "geometric_extreme" => positive_case(&de(v), obs),
         "zero_crossing" => cross_case(&de(v), obs),
         "reject" => reject_case(&de(v), obs),
         "accept" => accept_case(&de(v), obs),
